@@ -719,6 +719,12 @@ pub fn c03_cases(pool: &[SchemaInfo], rng: &mut Rng, tier: &str, shard: (usize, 
         let plan: Vec<&str> = if rng.pct(70) { all.to_vec() } else { vec!["OverlappingFieldsCanBeMerged"] };
         push(&mut cases, "merge-cycles", synth, d.print(), plan, &mut n);
     }
+    for (i, d) in crate::families::cycle_multi_edge_cases().into_iter().enumerate() {
+        if i % shard.1 == shard.0 {
+            push(&mut cases, "cycle-multi-edge", synth, d.print(), all.to_vec(), &mut n);
+            push(&mut cases, "cycle-multi-edge", synth, d.print(), vec!["OverlappingFieldsCanBeMerged"], &mut n);
+        }
+    }
     // the known stack-overflow witness and relatives
     if shard.0 == 0 {
         for doc in [
@@ -963,11 +969,21 @@ pub fn exhaustive_family(prop: &str, tier: &str, rng: &mut Rng, shard: (usize, u
             for d in merge_cycle_cases(rng, budget(tier, 1500, 40000)) {
                 docs.push(("merge-cycles".to_string(), d.print()));
             }
+            for d in cycle_multi_edge_cases() {
+                docs.push(("cycle-multi-edge".to_string(), d.print()));
+            }
             for d in merge_shape_cases() {
                 docs.push(("merge-shapes".to_string(), d.print()));
             }
             for d in merge_argument_cases() {
                 docs.push(("merge-arguments".to_string(), d.print()));
+            }
+            {
+                let mt = merge_triple_cases();
+                let nmt = budget(tier, 700, mt.len());
+                for d in pick_sample(mt, nmt, rng) {
+                    docs.push(("merge-triples".to_string(), d.print()));
+                }
             }
             for d in merge_fragment_dag_cases(rng, budget(tier, 3000, 60000)) {
                 docs.push(("merge-fragment-dags".to_string(), d.print()));
